@@ -132,7 +132,8 @@ func hostcall(self *VM, function string, span errors.Span, args []*value.Value) 
 		remainingArgs := make([]value.Value, 0)
 
 		if remainingLen > 0 {
-			for i := argcOffsetCount; i < len(args); i++ {
+			// The trigger's arguments were pushed in program order, so they are popped last to first.
+			for i := len(args) - 1; i >= argcOffsetCount; i-- {
 				remainingArgs = append(remainingArgs, *args[i])
 			}
 		}
@@ -268,12 +269,8 @@ func (self *VM) SpawnAsync(
 		index++
 	}
 
-	// Invert arguments so that they match the order in which they would be pushed onto the stack.
-	argCIdx := len(invocation.Args) - 1
-	invertedArgs := make([]value.Value, argCIdx+1)
-	for idx := argCIdx; idx >= 0; idx-- {
-		invertedArgs[argCIdx-idx] = invocation.Args[idx]
-	}
+	// Arguments are pushed in declared order, exactly like a call from within a program does it.
+	invertedArgs := invocation.Args
 
 	return self.spawnCoreInternal(
 		invocation.Function,
@@ -324,12 +321,8 @@ func (self *VM) SpawnSync(
 		index++
 	}
 
-	// Invert arguments so that they match the order in which they would be pushed onto the stack.
-	argCIdx := len(invocation.Args) - 1
-	invertedArgs := make([]value.Value, argCIdx+1)
-	for idx := argCIdx; idx >= 0; idx-- {
-		invertedArgs[argCIdx-idx] = invocation.Args[idx]
-	}
+	// Arguments are pushed in declared order, exactly like a call from within a program does it.
+	invertedArgs := invocation.Args
 
 	coreHandle := self.spawnCoreInternal(
 		invocation.Function,
